@@ -7,7 +7,7 @@ CONSTANTS
   MaxStack = 1
   BindVals <- BV12
   MaxBindings = 2
-  Enabled = {"BindSp", "Query", "Register"}
+  Enabled = {"BindSp", "Query", "Register", "GetBindings"}
   NameOrder <- NamesPQ
   HookUniverse = {}
   BindApis = {"string"}
